@@ -108,7 +108,20 @@ class EvalMixin:
             return StrConst(v)
         if v is None:
             return NONEV
+        if type(v).__name__ == 'EnumConst':
+            return mk_int(self.enum_index(v))
         return v
+
+    def enum_index(self, ec):
+        """enum members are identified by their declaration order in the class body (read from the source)"""
+        ci = self.class_info(ec.cls)
+        names = []
+        for n in ci.node.body:
+            if isinstance(n, ast.Assign):
+                for t in n.targets:
+                    if isinstance(t, ast.Name):
+                        names.append(t.id)
+        return names.index(ec.name)
 
     def truth(self, v, st):
         v = self.lift(v)
